@@ -131,6 +131,7 @@ Init ==
   /\ phase = "start"
   /\ IF role = "client"
      THEN /\ abs \in BOOLEAN /\ path \in Paths /\ fam \in ConnFams /\ fault \in Faults
+          /\ (IF abs \/ Len(path) = 0 THEN TRUE ELSE path[1] # "E")   \* a leading empty component IS the absolute form
           /\ huge \in {FALSE} \cup (IF path = <<"B", "Lloc">> /\ abs THEN {TRUE} ELSE {})
           /\ obj = "absent" /\ cres = "fail"
      ELSE /\ abs = TRUE /\ path = <<>> /\ fam = 4 /\ fault = "none" /\ huge = FALSE
@@ -179,9 +180,8 @@ ClientSendsResult ==
 
 ClientGetsVerdict ==
   /\ role = "client" /\ phase = "replied"
-  \* A hostile server answers what it likes: the return value is constrained only
-  \* when the client itself refused (it then never reports success... the server's
-  \* word still decides, so "nil" stays possible) or when the verdict is lost.
+  \* A hostile server answers what it likes, so the return value is constrained
+  \* only when the verdict never arrives.
   /\ ret' \in IF fault = "verdictLost" THEN {"error"} ELSE {"nil", "error"}
   /\ created' = IF "NoRemoval" \in Bug THEN created ELSE {}
   /\ phase' = "done"
@@ -238,12 +238,13 @@ CreatedOnlyUnderBase ==
 AtMostOneCreated == Cardinality(created) <= 1
 \* whatever was created is gone once the exchange is over, however it ended
 RemovedWhenComplete == phase = "done" => created = {}
-\* any other path: no change and a clean failure reply (an over-long MESSAGE may
-\* also be refused by abandoning the exchange)
+\* any other path: no change and a clean failure reply (a MESSAGE beyond the size
+\* limit is refused by abandoning the exchange: on the wire that is indistinguishable
+\* from a reply, so only the filesystem is constrained there)
 CleanFailure ==
   (role = "client" /\ phase \in {"replied", "done"} /\ ~Valid(abs, path, fam) /\ fault # "sendFail")
      => /\ created = {}
-        /\ result = (IF huge THEN "none" ELSE "fail")
+        /\ huge \/ result = "fail"
 \* success is reported only for a directory that exists
 ResultMatchesEffect == (result = "ok" /\ phase = "replied") => created # {}
 
